@@ -786,6 +786,7 @@ func (x *Exec) run(st *State) {
 				x.returnFromInline(st, results)
 				continue
 			}
+			x.retPos = i.Pos()
 			x.atReturn(st, results)
 			x.paths++
 			return
@@ -848,11 +849,33 @@ func (x *Exec) jump(st *State, b *ssa.BasicBlock) bool {
 func (x *Exec) atReturn(st *State, results []SV) {
 	if x.fc != nil {
 		env := x.contractEnv(st, results, st.entry)
-		for _, u := range x.fc.Uses {
-			st.assume(env.evalBool(u))
+		if len(x.fc.Uses) > 0 {
+			// lemma hints may mention the locals live at the return
+			uenv := x.contractEnv(st, results, st.entry)
+			saved := map[string]SV{}
+			for k, v := range uenv.vars {
+				saved[k] = v
+			}
+			x.bindLocals(uenv, st.top(), nil)
+			for k, v := range saved {
+				uenv.vars[k] = v
+			}
+			for _, u := range x.fc.Uses {
+				func() {
+					defer func() {
+						if r := recover(); r != nil {
+							if _, ok := r.(cevalErr); ok {
+								return // hint mentions a local that is not live on this path
+							}
+							panic(r)
+						}
+					}()
+					st.assume(uenv.evalBool(u))
+				}()
+			}
 		}
 		for _, c := range x.fc.Ensures {
-			x.assert(st, "post:"+c.Label, env.evalBool(c.Expr), c.Text, token.NoPos)
+			x.assert(st, "post:"+c.Label, env.evalBool(c.Expr), c.Text, x.retPos)
 		}
 	}
 	x.checkFrame(st)
